@@ -14,7 +14,11 @@ RULE = ("random command trees (depth <= 3) mixing short-only / long-only / short
         "next_line_help, possible values with help and hidden values, hidden subcommands, flag subcommands, the four "
         "global settings; every name is a unique marker.  x widths (0..200 exhaustively for small trees, boundary widths "
         "otherwise) x {short, long, usage, -h / --help / help <path> at every level}.  A case is non-trivial when the "
-        "rendered screen has at least one row or the usage line more than one token; distinct = distinct case text.")
+        "rendered screen has at least one row or the usage line more than one token; distinct = distinct case text.  Round 3 adds: "
+        "argument groups (required or not, multiple), requires rules towards arguments and groups (chains, conditional rules), "
+        "subcommand_negates_reqs / args_conflicts_with_subcommands / subcommand_required / allow_external_subcommands, subcommand_value_name, "
+        "next_help_heading between the Command::arg calls (with resets) and subcommand_help_heading at every level, and custom help "
+        "templates made of titled blocks for {options} / {positionals} / {subcommands} (any order, repeated) or {all-args}, with unknown tags.")
 TRUSTED = [
     "Coq 8.16.1 kernel (coqc); no native_compute; theorems C12_* are 'Closed under the global context'",
     "extraction: ExtrOcamlBasic only, no Extract Constant; OCaml driver ocaml/help_driver.ml (spec reader, printing, display_width = byte length)",
@@ -24,8 +28,10 @@ TRUSTED = [
 ]
 ASSUMPTIONS = [
     "64-bit usize; plain styles; default help template; no term-size detection (term_width is set explicitly)",
-    "domain of the model: no argument groups / requires / next_help_heading / subcommand_help_heading / subcommand visible aliases / flatten_help (the generators stay inside it); env, defaults, (short) aliases, possible values in spec_vals and global arguments are modelled",
-    "the help-level theorems on the parser model (C12_help_flag_*_level) quantify over chains of subcommand names/aliases directly followed by the help flag (class help_chain); their hypothesis long_help_at/short_help_at (the level's --help / -h is a value-less Help-action flag) is checked by computation on the example, not derived from the build",
+    "domain of the model: no flatten_help, override_usage / override_help, Arg::group on the argument side, subcommand visible aliases (the generators stay inside it); argument groups, requires, the subcommand usage forms, next_help_heading, subcommand_help_heading, subcommand_value_name, custom help templates (tag dispatch; the texts of name / bin / version / author / before- / after-help are not modelled), env, defaults, (short) aliases, possible values in spec_vals and global arguments are modelled",
+    "refs_ok (hypothesis of C12_padding_safe, C12_render_total, C12_usage_*, C12_template_total): group ids unique, group members are arguments, every id named by a requires rule exists -- what debug_asserts.rs checks before any rendering",
+    "the generators keep `hide`n arguments out of groups and out of requires targets: a hidden member of a listed group is printed by format_group (observation C12_usage_hidden_group_member_shown, replayed on the real crate)",
+    "the help-level theorems on the parser model (C12_help_flag_*_level_gen) quantify over chains of subcommand names/aliases directly followed by the help flag (class help_chain); hypotheses: the level at the end of the chain contains the generated help argument (C12_build_has_help: the build puts it there when the flag is not disabled) and no subcommand of that level answers to the token `--help` / `-h`",
     "C12_padding_safe assumes every rendered left column is at most 65 000 columns wide (observation N: core::fmt limits run-time widths to u16 on rustc >= 1.87)",
     "names are ASCII in generated cases (columns = characters = bytes)",
 ]
@@ -289,6 +295,77 @@ def gen_cmd(rng, ctr, name, depth, prof, reserved=()):
     return c
 
 
+NEXT_HEADINGS = ["Nh1z", "Nh2z", "Hd1z"]
+
+
+def add_headings(rng, c, p=0.5):
+    """round 3: Command::next_help_heading between the Command::arg calls (a heading, or None to reset) and
+    Command::subcommand_help_heading, at every level"""
+    if c["args"] and rng.random() < p:
+        for a in c["args"]:
+            r = rng.random()
+            if r < 0.3:
+                a["next_heading"] = rng.choice(NEXT_HEADINGS)
+            elif r < 0.38:
+                a["next_heading"] = None
+    if c["subs"] and rng.random() < p:
+        c["sub_heading"] = rng.choice(["Sh1z", "Sh2z words", "Options"])
+    for sc in c["subs"]:
+        add_headings(rng, sc, p)
+
+
+def add_usage_forms(rng, ctr, c, prof):
+    """round 3: argument groups (required or not), `requires` rules between arguments and towards groups, the
+    settings that change the form of the usage line, subcommand_value_name.  Members of groups and targets of
+    rules are drawn from the arguments that are not `hide`n (a hidden member of a listed group is printed by
+    format_group: observation C12_usage_hidden_group_member_shown) and not global; applied to every level."""
+    n = ctr.next()
+    cand = [a for a in c["args"] if not a.get("hide") and not a.get("global")]
+    groups = []
+    if cand and rng.random() < prof.get("p_group", 0.6):
+        for gi in range(rng.choice([1, 1, 2])):
+            k = rng.choice([1, 2, 2, 3])
+            mem = rng.sample(cand, min(k, len(cand)))
+            g = {"id": "gr" + n + "z" + "ab"[gi], "args": [a["id"] for a in mem], "required": rng.random() < 0.6,
+                 "multiple": rng.random() < 0.3, "requires": []}
+            groups.append(g)
+    # requires rules: a -> b (argument or group), chains allowed, conditional rules (ignored by the usage line) too
+    targets = [a["id"] for a in cand] + [g["id"] for g in groups]
+    for a in c["args"]:
+        if a.get("global"):
+            continue          # a global argument is copied into the subcommands, where its targets do not exist
+        if targets and rng.random() < prof.get("p_requires", 0.3):
+            ts = [t for t in rng.sample(targets, min(len(targets), rng.choice([1, 1, 2]))) if t != a["id"]]
+            if ts:
+                a["items"].append("(requires %s)" % " ".join(hexs(t) for t in ts))
+                a["requires"] = ts
+        if targets and a.get("action") in ("set", "append") and rng.random() < 0.08:
+            t = rng.choice(targets)
+            if t != a["id"]:
+                a["items"].append("(requires_if %s %s)" % (hexs("v"), hexs(t)))
+    for g in groups:
+        if g["required"] and rng.random() < 0.3:
+            ts = [t for t in rng.sample(targets, 1) if t != g["id"]]
+            g["requires"] = ts
+    c["groups"] = groups
+    if c["subs"]:
+        r = rng.random()
+        if r < 0.25:
+            c["sets"].append("subcommand_negates_reqs")
+        elif r < 0.45:
+            c["sets"].append("args_conflicts_with_subcommands")
+        if rng.random() < 0.3 and "subcommand_required" not in c["sets"]:
+            c["sets"].append("subcommand_required")
+        if rng.random() < 0.4:
+            c["sub_valname"] = "SV" + n + "z"
+    elif rng.random() < 0.15:
+        c["sets"].append("allow_external_subcommands")
+        if rng.random() < 0.5:
+            c["sub_valname"] = "SV" + n + "z"
+    for sc in c["subs"]:
+        add_usage_forms(rng, ctr, sc, prof)
+
+
 def cmd_sx(c):
     it = [hexs(c["name"])] + list(c["items"])
     sets = list(c.get("sets", []))
@@ -304,8 +381,23 @@ def cmd_sx(c):
         it.append("(x-next-line)")
     if c.get("order") is not None:
         it.append("(x-order %d)" % c["order"])
+    if c.get("sub_valname"):
+        it.append("(x-sub-valname %s)" % hexs(c["sub_valname"]))
+    if c.get("sub_heading"):
+        it.append("(x-sub-heading %s)" % hexs(c["sub_heading"]))
     for a in c["args"]:
+        if "next_heading" in a:       # Command::next_help_heading called before this argument is added
+            it.append("(x-next-heading%s)" % ("" if a["next_heading"] is None else " " + hexs(a["next_heading"])))
         it.append("(arg %s %s)" % (hexs(a["id"]), " ".join(a["items"])))
+    for g in c.get("groups", []):
+        gi = [hexs(g["id"]), "(args %s)" % " ".join(hexs(x) for x in g["args"])]
+        if g["required"]:
+            gi.append("(required)")
+        if g["multiple"]:
+            gi.append("(multiple)")
+        if g["requires"]:
+            gi.append("(requires %s)" % " ".join(hexs(x) for x in g["requires"]))
+        it.append("(group %s)" % " ".join(gi))
     for s in c["subs"]:
         it.append("(sub %s)" % cmd_sx(s))
     return "(cmd %s)" % " ".join(it)
@@ -354,6 +446,40 @@ def gen_random(tier, rng, n):
             else:
                 wh = which_sx(rng.choice(["flag-h", "flag-help", "sub-help"]), rng.choice(paths))
             cases.append(case_sx(sx, w, wh))
+    return cases
+
+
+def gen_usage_forms(tier, rng, n):
+    """round 3: the usage line with argument groups, requires rules and the subcommand forms; every which"""
+    cases = []
+    for _ in range(n):
+        ctr = Ctr()
+        prof = {"nflag": [1, 2, 3], "nopt": [1, 2, 3], "npos": [0, 1, 2, 3], "nsub": [0, 1, 2], "p_nohelp": 0.2,
+                "p_group": rng.choice([0.3, 0.9]), "p_requires": rng.choice([0.2, 0.6])}
+        c = gen_cmd(rng, ctr, "p", rng.choice([0, 1, 1, 2]), prof)
+        add_usage_forms(rng, ctr, c, prof)
+        if rng.random() < 0.5:
+            add_headings(rng, c)
+        sx = cmd_sx(c)
+        paths = all_paths(c)
+        for wh in ["usage", rng.choice(["short", "long"]),
+                   which_sx(rng.choice(["flag-h", "flag-help", "sub-help"]), rng.choice(paths))]:
+            cases.append(case_sx(sx, rng.choice([0, 40, 80, 100, 200]), wh))
+    return cases
+
+
+def gen_headings(tier, rng, n):
+    """round 3: next_help_heading / subcommand_help_heading at every level x short / long / help at a level"""
+    cases = []
+    for _ in range(n):
+        ctr = Ctr()
+        c = gen_cmd(rng, ctr, "p", rng.choice([0, 1, 1, 2]), {"nflag": [1, 2, 3], "nopt": [1, 2], "npos": [0, 1, 2], "nsub": [0, 1, 2, 3],
+                                                               "p_heading": rng.choice([0.0, 0.3]), "p_nohelp": 0.1})
+        add_headings(rng, c, 0.9)
+        sx = cmd_sx(c)
+        paths = all_paths(c)
+        for wh in ["short", "long", which_sx(rng.choice(["flag-h", "flag-help", "sub-help"]), rng.choice(paths))]:
+            cases.append(case_sx(sx, rng.choice([0, 40, 80, 100]), wh))
     return cases
 
 
@@ -558,6 +684,8 @@ def dec_arg(l):
             a["hide_env_values"] = True
         elif h == "x-hide-default":
             a["hide_default"] = True
+        elif h == "requires":
+            a.setdefault("requires", []).extend(s_(x) for x in r)
         elif h == "x-pv":
             pv = {"name": s_(r[0])}
             for e in r[1:]:
@@ -571,6 +699,7 @@ def dec_arg(l):
 
 def dec_cmd(l):
     c = {"name": s_(l[0]), "args": [], "subs": [], "sets": []}
+    current_heading = None        # Command::next_help_heading: applies to the arguments added afterwards
     for it in l[1:]:
         h, r = it[0], it[1:]
         if h == "about":
@@ -593,8 +722,29 @@ def dec_cmd(l):
             c["next_line"] = True
         elif h == "x-order":
             c["order"] = int(r[0])
+        elif h == "x-next-heading":
+            current_heading = s_(r[0]) if r else None
+        elif h == "x-sub-heading":
+            c["sub_heading"] = s_(r[0])
         elif h == "arg":
-            c["args"].append(dec_arg(r))
+            a = dec_arg(r)
+            if "heading" not in a and current_heading is not None:
+                a["heading"] = current_heading
+            c["args"].append(a)
+        elif h == "group":
+            g = {"id": s_(r[0]), "args": [], "required": False, "requires": []}
+            for e in r[1:]:
+                if e[0] == "args":
+                    g["args"] = [s_(x) for x in e[1:]]
+                elif e[0] == "required":
+                    g["required"] = True
+                elif e[0] == "requires":
+                    g["requires"] = [s_(x) for x in e[1:]]
+            c.setdefault("groups", []).append(g)
+        elif h == "x-sub-valname":
+            c["sub_valname"] = s_(r[0])
+        elif h == "x-template":
+            c["template"] = s_(r[0])
         elif h == "sub":
             c["subs"].append(dec_cmd(r[0][1:]))
     return c
@@ -828,9 +978,9 @@ def oracle(case, impl):
                 if MARKER.match(mk) and mk in text:
                     return "hidden subcommand %s: %r appears" % (s["name"], mk)
         else:
-            blk = secs.get("Commands")
+            blk = secs.get(level.get("sub_heading") or "Commands")
             if blk is None or not re.search(r"(?m)^  %s(?![\w-])" % re.escape(s["name"]), blk):
-                return "visible subcommand %s is not listed under Commands" % s["name"]
+                return "visible subcommand %s is not listed under %s" % (s["name"], level.get("sub_heading") or "Commands")
     return None
 
 
@@ -879,6 +1029,80 @@ def template_oracle(case, impl):
     return None
 
 
+TAG_TITLES = {"options": "OPTSz", "positionals": "POSz", "subcommands": "SUBSz"}
+
+
+def gen_template_tags(tier, rng, n):
+    """round 3: custom templates built from titled blocks `TITLE:\\n{tag}` for the row-writing tags ({options},
+    {positionals}, {subcommands}; any subset, any order, a tag may repeat) or `{all-args}`, compared with the model
+    (tag dispatch of write_templated_help) row by row; arguments hidden per mode, headings, hidden subcommands"""
+    out = []
+    while len(out) < n:
+        ctr = Ctr()
+        c = gen_cmd(rng, ctr, "p", 1, {"p_heading": rng.choice([0.0, 0.4]), "nflag": [1, 2, 3], "nopt": [0, 1, 2], "npos": [0, 1, 2],
+                                     "nsub": [0, 1, 2, 3]})
+        for a in c["args"]:
+            if rng.random() < 0.4 and not any(x.startswith("(x-hide") for x in a["items"]) and "required" not in " ".join(a["items"]) \
+                    and "hide" not in " ".join(a["items"]):
+                a["items"].append(rng.choice(["(x-hide)", "(x-hide-short)", "(x-hide-long)"]))
+        head = rng.choice(["{about-with-newline}\n", "{about}\n\n", ""]) + "{usage-heading} {usage}\n\n"
+        if rng.random() < 0.25:
+            body = "{all-args}"
+        else:
+            tags = [rng.choice(list(TAG_TITLES)) for _ in range(rng.choice([1, 2, 3, 3, 4]))]
+            body = "".join("%s%d:\n{%s}\n\n" % (TAG_TITLES[t], i, t) for i, t in enumerate(tags))
+            if rng.random() < 0.3:
+                body += "{unknownz}{tab}"
+        tmpl = head + body + "{after-help}"
+        c["items"].append("(x-template %s)" % hexs(tmpl))
+        for which in ("short", "long"):
+            out.append(case_sx(c, rng.choice([0, 30, 40, 80, 100]), which))
+    return out[:n]
+
+
+def template_tags_oracle(case, impl):
+    """hidden-absent (template_oracle) and, per titled block, visible-listed: {options} lists every non-positional
+    argument that is not hidden for the mode, {positionals} every such positional, {subcommands} every subcommand
+    that is not hidden"""
+    r = template_oracle(case, impl)
+    if r:
+        return r
+    if impl.startswith(("PANIC", "INVALID", "harness-error", "unknown-mode", "err", "noerr")):
+        return None
+    cmd, width, which, path = decode_case(case)
+    text = impl_text(impl)
+    tmpl = cmd.get("template")
+    if text is None or not tmpl:
+        return None
+    use_long = which == "long"
+    scr = split_screen(text)
+    if scr is None:
+        return "rendered template has no usage line"
+    secs = scr[2]
+    for title, tag in re.findall(r"(\w+):\n\{(\w+)\}", tmpl):
+        blk = secs.get(title)
+        if blk is None:
+            return "the block %r of the template is missing" % title
+        if tag in ("options", "positionals"):
+            for a in cmd["args"]:
+                if hidden_for_mode(a, use_long) or is_positional(a) != (tag == "positionals"):
+                    continue
+                if "long" in a:
+                    ok = re.search(r"--%s(?![\w-])" % re.escape(a["long"]), blk)
+                elif "short" in a:
+                    ok = short_occurs(blk, a["short"])
+                else:
+                    nm = a["valnames"][0] if a["valnames"] else a["id"]
+                    ok = ("<%s>" % nm) in blk or ("[%s]" % nm) in blk
+                if not ok:
+                    return "visible argument %s is not listed by {%s}" % (a["id"], tag)
+        elif tag == "subcommands":
+            for sc in cmd["subs"]:
+                if not sc.get("hide") and not re.search(r"(?m)^  %s(?![\w-])" % re.escape(sc["name"]), blk):
+                    return "visible subcommand %s is not listed by {subcommands}" % sc["name"]
+    return None
+
+
 def f32_oracle(case, impl):
     if not re.match(r"f32 checked \d+ differ \(\)\s*$", impl):
         return "the f32 comparison of arg_next_line_help differs from 5*taken > 2*term_w: " + impl[:200]
@@ -907,7 +1131,9 @@ def describe(cases, name):
         d["which=" + k] = sum(1 for c in cases if "(which %s)" % k in c or "(which (%s" % k in c)
     for k in ("(action count)", "(x-heading", "(x-order", "(x-next-line)", "(x-hide-short)", "(x-hide-long)", "(x-pv",
               "(x-hide-pv)", "hide", "disable_help_flag", "(sub ", "(short_flag", "(x-long-help", "reqeq", "last",
-              "global", "(env ", "(x-hide-env)", "(x-hide-env-values)", "(default ", "(x-hide-default)", "(alias ", " v)", "(salias "):
+              "global", "(env ", "(x-hide-env)", "(x-hide-env-values)", "(default ", "(x-hide-default)", "(alias ", " v)", "(salias ",
+              "(group ", "(required)", "(requires ", "(requires_if ", "subcommand_negates_reqs", "args_conflicts_with_subcommands",
+              "subcommand_required", "allow_external_subcommands", "(x-sub-valname", "(x-template", "(x-next-heading", "(x-sub-heading"):
         d["has " + k] = sum(1 for c in cases if k in c)
     ws = [int(re.search(r"\(width (\d+)\)", c).group(1)) for c in cases if "(width" in c]
     d["widths distinct"] = len(set(ws))
@@ -922,6 +1148,9 @@ def streams(tier, rng):
     adv = gen_adversarial(tier, rng, 300 if q else 12000)
     lev = gen_levels(tier, rng, 60 if q else 2000)
     bnd = gen_boundary(tier, rng)
+    usf = gen_usage_forms(tier, rng, 400 if q else 8000)
+    tpt = gen_template_tags(tier, rng, 300 if q else 6000)
+    hdg = gen_headings(tier, rng, 200 if q else 5000)
     out = [
         Stream("help-random", rnd, oracle=oracle, area="help", project=project, nontrivial=nontrivial,
                describe=describe(rnd, "random")),
@@ -933,6 +1162,12 @@ def streams(tier, rng):
                describe=describe(lev, "levels")),
         Stream("help-boundary", bnd, oracle=oracle, area="help", project=project, nontrivial=nontrivial,
                describe=describe(bnd, "boundary")),
+        Stream("help-usage-forms", usf, oracle=oracle, area="help", project=project, nontrivial=nontrivial,
+               describe=describe(usf, "usage-forms")),
+        Stream("help-headings", hdg, oracle=oracle, area="help", project=project, nontrivial=nontrivial,
+               describe=describe(hdg, "headings")),
+        Stream("help-template-tags", tpt, oracle=template_tags_oracle, area="help", project=project, nontrivial=nontrivial,
+               describe=describe(tpt, "template-tags")),
         Stream("help-templates", gen_templates(tier, rng, 200 if q else 4000), oracle=template_oracle, area=None,
                nontrivial=nontrivial),
         Stream("help-f32", ["(helpf32 %d %d)" % (t, w) for (t, w) in ([(300, 300)] if q else [(1200, 1200), (70000, 40)])],
@@ -954,8 +1189,9 @@ def classify_known(stream, case, impl, failure):
     return None
 
 
-TECHNIQUE = ("Coq proof (column arithmetic, visibility, section assembly, spec_vals non-interference of the help writer; help-flag "
-             "dispatch along a subcommand chain on the parser model) + extracted-model/implementation correspondence")
+TECHNIQUE = ("Coq proof (column arithmetic, visibility, section assembly, spec_vals non-interference of the help writer; usage line over the "
+             "requirement graph with groups; tag dispatch of custom templates; help-flag dispatch along a subcommand chain on the parser model) "
+             "+ extracted-model/implementation correspondence")
 LEVEL_TEXT = ("Machine-checked theorems (Coq 8.16, closed under the global context) about a model of help_template.rs / "
               "usage.rs that mirrors the Rust functions one by one: every unsigned subtraction and run-time format width in "
               "write_args / align_to_about / help / subcmd succeeds for every command, every width and every display-width "
@@ -967,13 +1203,23 @@ LEVEL_TEXT = ("Machine-checked theorems (Coq 8.16, closed under the global conte
               "defaults render the same screen in every mode at every width; every row carries exactly spec_vals of its argument and every "
               "visible possible value is listed; the usage line mentions every required positional; global arguments reach every "
               "subcommand level; and on the parser model try_get_matches_from on `bin name_1 .. name_k (--help|-h) ..` (names/aliases of "
-              "nested subcommands, class help_chain) returns the DisplayHelp error of the level at the end of the chain.  The "
+              "nested subcommands, class help_chain) returns the DisplayHelp error of the level at the end of the chain.  Round 3: the usage "
+              "line follows usage.rs write_args in full -- the unrolled requirement graph (the parser model's required_graph / "
+              "unroll_arg_requires / unroll_args_in_group), required groups as <a|b> with members not repeated, the [OPTIONS] rule, the second "
+              "line under subcommand_negates_reqs / args_conflicts_with_subcommands, subcommand_value_name -- and never panics for commands "
+              "whose references resolve (refs_ok), every piece comes from a requirement, a visible positional or a listed group, a hidden "
+              "argument that no rule demands has no piece in either form (incl. the optional hidden last positional), every required argument "
+              "is mentioned (own piece, or inside the <a|b> of a listed group it belongs to); custom help templates: write_templated_help is "
+              "modelled tag by tag and, for EVERY template text, rendering is total, every row any tag writes comes from a shown argument or "
+              "a non-hidden subcommand, and {options} / {positionals} / {subcommands} / {all-args} each list every visible item of their kind; "
+              "next_help_heading / subcommand_help_heading decide the section an item is listed in.  The "
               "model is tied to clap_builder on every run by rendering generated command trees with the real crate at widths "
               "0..200 (debug and release) and comparing sections, rows, help columns and usage tokens with the extracted model; "
               "an independent python oracle written from the property text checks the rendered text itself.")
 LEVEL_NOTE = ("Trusted: Coq kernel, extraction, OCaml driver, Rust harness, generators; core::fmt, BTreeMap, f32 comparison "
-              "(swept each run), textwrap (C20) and unicode-width are modelled or abstract; the model's domain excludes groups, "
-              "requires (usage forms <a|b>), next_help_heading / subcommand_help_heading, subcommand aliases in help, flatten_help, "
-              "custom templates, non-ASCII names.  Differential / oracle only: byte-exact layout and wrapped text, usage forms under "
-              "subcommand_negates_reqs / args_conflicts_with_subcommands, help chains with flags or values between the names.  "
-              "Observation (not a defect fix): a default value naming a hidden possible value is printed in [default: ..].")
+              "(swept each run), textwrap (C20) and unicode-width are modelled or abstract; the model's domain excludes flatten_help, "
+              "usage / help overrides, subcommand aliases in help, the texts of the template tags name / bin / version / author / before- / "
+              "after-help, non-ASCII names.  Differential / oracle only: byte-exact layout and wrapped text, help chains with flags or values "
+              "between the names.  The help-flag theorems no longer assume long_help_at / short_help_at: they are derived from validity for a level "
+              "that contains the generated help argument, with the necessary side condition that no subcommand answers to `--help` / `-h`.  Observations (not defect fixes): a default value naming "
+              "a hidden possible value is printed in [default: ..]; a hidden member of a listed group is printed in the usage line <a|b>.")
